@@ -339,7 +339,7 @@ class C05(Prop):
     pid = "C05"
     title = "VA / RVA / typed reads"
     thm_modules = ["PeliteModel.Thm.C05", "PeliteModel.Thm.C05Complete", "PeliteModel.Thm.C05SliceF"]
-    gens = [gen_img.gen_c05]
+    gens = [gen_img.gen_c05, gen_img.gen_partial_slot]
 
     def begin_case(self, case):
         self.last_slice = None
